@@ -53,3 +53,7 @@ Proof. vm_compute. reflexivity. Qed.
 
 Example C19_example : qcanon1 (eval1 2 1 3 true 1 loglik_t) = (15, 1)%Z /\ qcanon1 (eval1 2 1 3 false 1 loglik_t) = (0, 1)%Z.
 Proof. vm_compute. split; reflexivity. Qed.
+
+Theorem C19_cg_tolerance_exit_returns_a_consistent_state : cg_exit_after = [0; 1; 2]%nat.
+Proof. exact cg_exit_after_tie. Qed.
+Print Assumptions C19_cg_tolerance_exit_returns_a_consistent_state.
